@@ -43,14 +43,16 @@ type Operand struct {
 	Notation string `json:",omitempty"` // dec 0u 0d 0x 0b 0u<> 0d<> 0x<> 0b<> 0s 0sd
 	Lead0    bool   `json:",omitempty"`
 	How      string `json:",omitempty"` // generator's intent, label only: in / limit / limit+1 / huge / 300on8 ...
+	Raw      string `json:",omitempty"` // verbatim token (raw-line entries): rendered instead of Idx/Val; Idx/Val still carry what it denotes
 }
 
 // LineSpec is one instruction line.
 type LineSpec struct {
 	Op       string
 	Operands []Operand
-	Upper    bool `json:",omitempty"` // render in upper case (the assembler lower-cases)
-	Sep      int  `json:",omitempty"` // 0: " "  1: "\t"  2: "  "  3: " \t "
+	Upper    bool   `json:",omitempty"` // render in upper case (the assembler lower-cases)
+	Sep      int    `json:",omitempty"` // 0: " "  1: "\t"  2: "  "  3: " \t "
+	RawText  string `json:",omitempty"` // verbatim line (raw-line entries): used instead of the rendering
 }
 
 // Case is an architecture plus a short program.
@@ -80,7 +82,7 @@ var dynamicNames = []string{
 
 var (
 	opByName    = map[string]procbuilder.Opcode{}
-	allNames    []string          // sorted; static + created dynamic
+	allNames    []string              // sorted; static + created dynamic
 	uncreatable = map[string]string{} // dynamic name -> error text
 )
 
@@ -379,6 +381,14 @@ func renderNumber(v *big.Int, notation string, lead0 bool) string {
 }
 
 func renderOperand(k kind, o Operand) (string, bool) {
+	if o.Raw != "" {
+		if k.numeric() {
+			if _, ok := bigOf(o.Val); !ok {
+				return "", false
+			}
+		}
+		return o.Raw, true
+	}
 	if k.numeric() {
 		v, ok := bigOf(o.Val)
 		if !ok {
@@ -443,16 +453,16 @@ func matchersOf(tok string) []string {
 // the line oracle
 
 type lineVerdict struct {
-	Text      string
-	Accepted  bool
-	Word      string
-	Fail      *pbt.Failure
-	Excluded  string
-	Labels    []string
-	NT        bool
-	OutOfRng  bool // the reference says at least one operand does not fit
-	ArityOff  bool
-	FailKind  string // operand kind the failure is attributed to (survey)
+	Text     string
+	Accepted bool
+	Word     string
+	Fail     *pbt.Failure
+	Excluded string
+	Labels   []string
+	NT       bool
+	OutOfRng bool // the reference says at least one operand does not fit
+	ArityOff bool
+	FailKind string // operand kind the failure is attributed to (survey)
 }
 
 func asmLine(b *builtArch, text string) (w string, err error, pan any) {
@@ -487,12 +497,13 @@ func only01(w string) bool {
 }
 
 // known-finding classes, decided from the INPUT only (never from the outcome).
-//   D1            a numeric operand whose value needs more bits than its field
-//   tsp           every tsp line (no padding loop, no unknown-register check)
-//   getid64       a numeric operand in a 64-bit field with bit 63 set (get_id accumulates in int)
-//   m2rri-len     m2rri when 2R > R+O  (length function counts R+O, Assembler emits 2R)
-//   modelen       ja/jcmpa in mode ha, jo/jcmpo in mode vn (length function returns 0)
-//   r2v-vtm       r2v when a vtextmem box is bound to arch.Tag (field is Needed_bits(w*h), not 8)
+//
+//	D1            a numeric operand whose value needs more bits than its field
+//	tsp           every tsp line (no padding loop, no unknown-register check)
+//	getid64       a numeric operand in a 64-bit field with bit 63 set (get_id accumulates in int)
+//	m2rri-len     m2rri when 2R > R+O  (length function counts R+O, Assembler emits 2R)
+//	modelen       ja/jcmpa in mode ha, jo/jcmpo in mode vn (length function returns 0)
+//	r2v-vtm       r2v when a vtextmem box is bound to arch.Tag (field is Needed_bits(w*h), not 8)
 const sigD1 = "D1:operand-overflow-lengthens-word"
 
 func (b *builtArch) vtmBound() bool {
@@ -538,6 +549,9 @@ func judgeLine(b *builtArch, ln LineSpec, strict bool) (v lineVerdict) {
 		v.Excluded = "invalid-case:operand"
 		return
 	}
+	if ln.RawText != "" {
+		text = ln.RawText
+	}
 	v.Text = text
 	lab := func(l string) { v.Labels = append(v.Labels, l) }
 	mw := b.m.Arch.Max_word()
@@ -575,7 +589,7 @@ func judgeLine(b *builtArch, ln LineSpec, strict bool) (v lineVerdict) {
 		if k.numeric() {
 			x.val, _ = bigOf(o.Val)
 			x.width = b.width(k, s)
-			x.fits = x.val.BitLen() <= x.width
+			x.fits = x.width > 0 && x.val.BitLen() <= x.width // a field of width 0 does not exist (L==0: no RAM): nothing fits
 			tok, _ := renderOperand(k, o)
 			tok = strings.ToLower(tok)
 			if len(matchersOf(tok)) != 1 {
@@ -680,12 +694,20 @@ func judgeLine(b *builtArch, ln LineSpec, strict bool) (v lineVerdict) {
 				overflow = true
 			}
 		}
-		if overflow && len(w) > mw && ln.Op != "tsp" {
+		regsFit := true
+		for _, x := range ops {
+			if !x.k.numeric() && !x.fits {
+				regsFit = false
+			}
+		}
+		if overflow && len(w) > mw && regsFit {
 			v.Fail = pbt.Failf(sigD1, "%q assembles to %q: %d bits, Max_word is %d (operand does not fit its field and lengthens the word) %s", text, w, len(w), mw, describe())
 			return
 		}
 		sig := "len:" + ln.Op
 		switch {
+		case ln.Op == "tsp" && !regsFit:
+			sig = "accept:tsp-unknown-register"
 		case ln.Op == "tsp":
 			sig = "len:tsp-no-padding"
 		case classes["m2rri-len"]:
@@ -714,7 +736,16 @@ func judgeLine(b *builtArch, ln LineSpec, strict bool) (v lineVerdict) {
 				which += fmt.Sprintf(" operand %d (%s)", i, x.k)
 			}
 		}
-		v.Fail = pbt.Failf("wrap:"+ln.Op, "%q accepted as %q although%s does not fit %s", text, w, which, describe())
+		sig := "wrap:" + ln.Op
+		if ln.Op == "tsp" {
+			sig = "accept:tsp-unknown-register"
+			for _, x := range ops {
+				if x.k.numeric() && !x.fits {
+					sig = "wrap:tsp-overflow-hidden-by-missing-padding"
+				}
+			}
+		}
+		v.Fail = pbt.Failf(sig, "%q accepted as %q although%s does not fit %s", text, w, which, describe())
 		return
 	}
 	// --- opcode field
